@@ -178,7 +178,15 @@ pub fn run(op: &str, args: &[&str]) -> Option<String> {
                 Err(false) => return None,
             };
             let e = ExtraField(fs);
-            let ser_len = serialize(&e).len();
+            for f in &e.0 {
+                if let Err(m) = crate::ops_codec::ser_checked(f) {
+                    return Some(format!("{} sub-field", m));
+                }
+            }
+            let ser_len = match crate::ops_codec::ser_checked(&e) {
+                Ok(b) => b.len(),
+                Err(m) => return Some(m.to_string()),
+            };
             let raw = RawExtraField::from(e);
             if op == "extra_enc" {
                 Some(format!("OK {} {}", show_hex(&raw.0), ser_len))
@@ -231,7 +239,10 @@ pub fn run(op: &str, args: &[&str]) -> Option<String> {
                 return None;
             }
             let orig = sub_str(&f);
-            let bs = serialize(&f);
+            let bs = match crate::ops_codec::ser_checked(&f) {
+                Ok(b) => b,
+                Err(m) => return Some(m.to_string()),
+            };
             let back = match deserialize_partial::<SubField>(&bs) {
                 Ok((g, n)) => format!("{} {}", (sub_str(&g) == orig) as u8, n),
                 Err(e) => crate::err_shown(&e),
